@@ -1,2 +1,164 @@
-(* C03 — stub: no theorems yet *)
-From Zap Require Import Base.Wire C03.Model C03.Proofs.
+(* C03 — Field constructors and zap.Any deliver exactly the value they were given.
+   Only statements closed by [exact]; the proofs are in C03/Arith.v, C03/Proofs.v, C03/Theorems.v.
+   [T] is the table set regenerated from the source on every run (Gen/Constructors.v, Gen/AddTo.v,
+   Gen/AnyTable.v); [construct], [addto], [equals], [any_lookup] are the semantics of those tables
+   (C03/Lang.v); [expected], [spec_any], [payload_self] are the specification (C03/Model.v). *)
+From Coq Require Import List ZArith Bool String.
+From Coq.Strings Require Import Byte.
+Import ListNotations.
+From Zap Require Import Base.Wire C03.Lang C03.Arith C03.Model C03.Proofs C03.Theorems.
+Local Open Scope Z_scope.
+
+(* The low-bits theorem.  A chain of integer conversions T0 -> T1 -> ... -> Tn -> T0' (T0' of the
+   width and signedness of T0) is the identity on every value of T0 IFF every intermediate width
+   is at least the width of T0 (same-width signed/unsigned reinterpretations included). *)
+Theorem C03_lowbits : forall t0 t0' ch, same_sw t0 t0' = true ->
+  (chain_ok t0 ch = true <-> forall z, in_num t0 z -> run_chain (ch ++ [t0']) z = z).
+Proof. exact lowbits. Qed.
+Print Assumptions C03_lowbits.
+
+(* The reflective checker of the integer packings accepts the regenerated table, and what it
+   guarantees: for every integer struct-literal constructor, packing the value into Field.Integer
+   (an int64) and unpacking it in AddTo's arm gives the value back, for every value of the type. *)
+Theorem C03_roundtrip_ok : roundtrip_ok = true.
+Proof. exact roundtrip_ok_true. Qed.
+Print Assumptions C03_roundtrip_ok.
+Theorem C03_roundtrip_ok_sound : roundtrip_ok = true ->
+  forall c n ft ie m ue, In c (t_ctors T) ->
+    c_param c = TNum n -> c_body c = BLit ft KKey (Some ie) None None ->
+    assoc ft (t_arms T) = Some (ACall m (Some ue)) ->
+    forall stack z, in_num n z ->
+    exists iz, eval (env0 (VI z) stack) ie = Some (VI iz) /\ in_numb NInt64 iz = true /\
+               forall k s x, eval (fenv {| f_ty := 0; f_key := k; f_int := iz; f_str := s; f_ifc := x |} VNil) ue = Some (VI z).
+Proof. exact roundtrip_ok_sound. Qed.
+Print Assumptions C03_roundtrip_ok_sound.
+
+(* Every constructor of the generated table (exported or helper, scalar, pointer, slice, generic,
+   zapfield), every key, every value of its parameter type -- every integer of each width, every
+   float/complex bit pattern (NaN payloads, -0), every instant and location, nil/non-nil pointers,
+   nil/empty/non-empty slices, nil errors, arbitrary user payloads: the Field is built, AddTo does
+   not panic, and the encoder receives exactly the specified delivery of that value: the value
+   itself under the method class of its type; a nil pointer as an explicit null; a nil error as
+   nothing; a slice as the array of its elements in order (nil errors skipped). *)
+Theorem C03_roundtrip : forall c, In c (t_ctors T) -> is_dict c = false ->
+  forall stack k v, in_typeb (c_param c) v = true ->
+  exists f cs, construct T ctor_fuel stack (c_name c) k v = Some f /\
+               addto T (addto_fuel v) f = Some cs /\
+               expected stack (c_name c) (c_param c) k v = Some (norm_calls cs).
+Proof. exact roundtrip_thm. Qed.
+Print Assumptions C03_roundtrip.
+
+(* Dict / dictField: an object holding, in order, what each member adds; panics iff a member does *)
+Theorem C03_dict : forall nm, nm = $"Dict" \/ nm = $"dictField" -> forall stack k a l,
+  construct T ctor_fuel stack nm k (VSlice a l) = Some (dict_field k (VSlice a l)) /\
+  option_map norm_calls (addto T (addto_fuel (VSlice a l)) (dict_field k (VSlice a l))) = exp_dict k (VSlice a l).
+Proof. intros nm H stack k a l. exact (conj (dict_construct nm H stack k (VSlice a l)) (dict_addto k a l)). Qed.
+Print Assumptions C03_dict.
+
+(* Time: for EVERY instant (unbounded) and location the encoder receives the same instant in the
+   same location; instants representable as int64 nanoseconds -- MinInt64 and MaxInt64 included --
+   travel as (UnixNano, Location), all others as the time.Time itself. *)
+Theorem C03_time : forall stack k t,
+  match construct T ctor_fuel stack ($"Time") k (VTime t) with
+  | Some f =>
+      addto T 2 f = Some [(($"AddTime"), k, VTime t)] /\
+      (min_nano <= tinst t <= max_nano ->
+         f = {| f_ty := 16; f_key := k; f_int := tinst t; f_str := []; f_ifc := VLoc (tloc t) |}) /\
+      (~ (min_nano <= tinst t <= max_nano) ->
+         f = {| f_ty := 17; f_key := k; f_int := 0; f_str := []; f_ifc := VTime t |})
+  | None => False
+  end.
+Proof. exact time_thm. Qed.
+Print Assumptions C03_time.
+
+(* zap.Any: for every dynamic type (listed or not) and every set of implemented interfaces that
+   agrees with the implements table on listed types, the type switch chooses the constructor the
+   specification names: the typed constructor of the type if there is one, else Object, Array,
+   NamedError, Stringer in that priority, else Reflect. *)
+Theorem C03_any : forall ty impls, consistent ty (has impls) ->
+  any_lookup (t_any T) ty impls = spec_any ty impls.
+Proof. exact any_thm_list. Qed.
+Print Assumptions C03_any.
+
+(* ... and its order respects interface shadowing: the interface clauses are, in order,
+   ObjectMarshaler, ArrayMarshaler, error, Stringer, and no concrete clause comes after a clause
+   for an interface its type implements (time.Time, time.Duration and their pointers are Stringers) *)
+Theorem C03_any_order :
+  filter (fun e => is_iface (fst e)) (t_any T) =
+    [(TIface IObjM, $"Object"); (TIface IArrM, $"Array"); (TIface IError, $"NamedError"); (TIface IStringer, $"Stringer")]
+  /\ no_shadow (t_any T) [] = true.
+Proof. exact (conj any_iface_order any_no_shadow). Qed.
+Print Assumptions C03_any_order.
+
+(* Fields built from the same input are the same Field and compare equal *)
+Theorem C03_equal_inputs : forall stack c k v f g,
+  built stack c k v f -> built stack c k v g ->
+  f = g /\ (payload_self (c_param c) v = true -> equals T f g = Some true).
+Proof. exact equal_inputs_thm. Qed.
+Print Assumptions C03_equal_inputs.
+
+(* Field.Equals never panics on Fields built by the constructors (any two constructors, any values) *)
+Theorem C03_equals_total : forall stack c1 k1 v1 f c2 k2 v2 g,
+  built stack c1 k1 v1 f -> built stack c2 k2 v2 g -> equals T f g <> None.
+Proof. exact equals_total_thm. Qed.
+Print Assumptions C03_equals_total.
+
+Theorem C03_equals_sym : forall stack c1 k1 v1 f c2 k2 v2 g,
+  built stack c1 k1 v1 f -> built stack c2 k2 v2 g -> equals T f g = equals T g f.
+Proof. exact equals_sym_thm. Qed.
+Print Assumptions C03_equals_sym.
+
+(* PARTIAL: reflexive whenever the payloads that Equals compares with reflect.DeepEqual equal
+   themselves (guard [payload_self]: no NaN / func inside a value-kind user payload).  Outside the
+   guard Equals is not reflexive: known finding "equals-deepequal-nonreflexive". *)
+Theorem C03_equals_refl_partial : forall stack c k v f,
+  built stack c k v f -> payload_self (c_param c) v = true -> equals T f f = Some true.
+Proof. exact equals_refl_thm. Qed.
+Print Assumptions C03_equals_refl_partial.
+
+(* the guard cannot be dropped: Reflect("k", NaN) *)
+Example C03_equals_refl_guard_needed :
+  exists f, construct T ctor_fuel [] ($"Reflect") [x6b] (VF64 nan64) = Some f /\ equals T f f = Some false.
+Proof. eexists. split. { vm_compute. reflexivity. } vm_compute. reflexivity. Qed.
+
+(* The ORIGINAL Equals (before the two fix: commits), kept as documentation of the defects:
+   it panicked on a Stringer / Inline payload of slice type, and a Complex128 field holding NaN
+   was not equal to itself. *)
+Theorem C03_equals_total_orig_refuted : ~ equals_total_orig.
+Proof. exact equals_total_orig_refuted. Qed.
+Print Assumptions C03_equals_total_orig_refuted.
+Theorem C03_equals_refl_orig_refuted : ~ equals_refl_orig.
+Proof. exact equals_refl_orig_refuted. Qed.
+Print Assumptions C03_equals_refl_orig_refuted.
+
+(* non-vacuity *)
+Example C03_example_int32_min :
+  option_map snd (deliver [] ($"Int32") [x6b] (VI (-2147483648))) = Some [(($"AddInt32"), [x6b], VI (-2147483648))].
+Proof. vm_compute. reflexivity. Qed.
+Example C03_example_uint64_max :
+  option_map snd (deliver [] ($"Uint64") [x6b] (VI 18446744073709551615)) = Some [(($"AddUint64"), [x6b], VI 18446744073709551615)].
+Proof. vm_compute. reflexivity. Qed.
+Example C03_example_float_nan_payload :
+  option_map snd (deliver [] ($"Float64") [x6b] (VF64 0x7FF8DEADBEEF0001)) = Some [(($"AddFloat64"), [x6b], VF64 0x7FF8DEADBEEF0001)].
+Proof. vm_compute. reflexivity. Qed.
+Example C03_example_nil_pointer :
+  option_map snd (deliver [] ($"Int8p") [x6b] VNil) = Some [(($"AddReflected"), [x6b], VNil)].
+Proof. vm_compute. reflexivity. Qed.
+Example C03_example_time_boundaries :
+  option_map (fun r => f_ty (fst r)) (deliver [] ($"Time") [] (VTime {| tinst := max_nano; tloc := 3 |})) = Some 16 /\
+  option_map (fun r => f_ty (fst r)) (deliver [] ($"Time") [] (VTime {| tinst := max_nano + 1; tloc := 3 |})) = Some 17 /\
+  option_map (fun r => f_ty (fst r)) (deliver [] ($"Time") [] (VTime {| tinst := min_nano; tloc := 0 |})) = Some 16 /\
+  option_map (fun r => f_ty (fst r)) (deliver [] ($"Time") [] (VTime {| tinst := min_nano - 1; tloc := 0 |})) = Some 17.
+Proof. vm_compute. repeat split; reflexivity. Qed.
+Example C03_example_any_duration_is_not_a_stringer_case :
+  any_lookup (t_any T) (TNum NDuration) [IStringer] = $"Duration".
+Proof. vm_compute. reflexivity. Qed.
+Example C03_example_wf :
+  wf (SL [SZ 0; SB ($"Int32"); SB [x6b]; SL [SZ 0; SZ (-7)]; SB []]) = true.
+Proof. vm_compute. reflexivity. Qed.
+
+(* wire-level link: on every well-formed case the oracle the driver runs accepts what the model
+   observes *)
+Theorem C03_wire : forall i, wf i = true -> spec i (model i) = true.
+Proof. exact wire_thm. Qed.
+Print Assumptions C03_wire.
